@@ -271,6 +271,17 @@ static void build_table()
 		add("GammaQ", l, s, [=]() { return GammaQ(xa.first, xa.second); });
 		add("GammaP", l, s, [=]() { return GammaP(xa.first, xa.second); });
 	}
+	// both arguments together: the complete product of the boundary values (a guard may sit behind a shortcut for one argument)
+	for(double x : {-1.0, -1e-9, 0.0, 1e-300, 1.0, 50.0})
+		for(double a : {-2.0, 0.0, 1e-3, 1.0, 150.0})
+		{
+			Side s = (x >= 0 && a > 0) ? ACCEPT : REJECT;
+			std::string l = "product,x=" + mc::dec(x) + ",a=" + mc::dec(a);
+			add("GammaQ", l, s, [=]() { return GammaQ(x, a); });
+			add("GammaP", l, s, [=]() { return GammaP(x, a); });
+			// CDF_Chi_Square is guarded through GammaP for x >= 0 (dof = 0 is the documented point mass at zero; x < 0 is answered 0 before any guard)
+			if(x >= 0) add("CDF_Chi_Square", "product,x=" + mc::dec(x) + ",dof=" + mc::dec(2 * a), (a >= 0) ? ACCEPT : REJECT, [=]() { return CDF_Chi_Square(x, 2 * a); });
+		}
 	for(unsigned d : {1u, 7u, 8u, UINT_MAX})
 		add("Round", "digits=" + std::to_string(d), d <= 7 ? ACCEPT : REJECT, [=]() { return Round(123.456789, d); });
 	for(int c : {-1, 0, 2, 3})
